@@ -31,6 +31,8 @@ pub struct Opts {
     pub case_timeout_s: u64,
     pub wall_cap_s: u64,
     pub max_violations: usize,
+    /// `--c18-op <grammar index> <rule index> <escaped input>`: print the observation digest of one call and exit
+    pub c18_op: Option<(usize, usize, String)>,
 }
 
 fn unescape(s: &str) -> String {
@@ -83,6 +85,7 @@ fn parse_args() -> Opts {
         case_timeout_s: 20,
         wall_cap_s: 3600,
         max_violations: 40,
+        c18_op: None,
     };
     let args: Vec<String> = std::env::args().collect();
     let mut i = 1;
@@ -105,6 +108,12 @@ fn parse_args() -> Opts {
             "--max-violations" => o.max_violations = val().parse().unwrap_or(40),
             "--verbose" => o.verbose = true,
             "--tier" => o.thorough = val() == "thorough",
+            "--c18-op" => {
+                let gi = val().parse().unwrap_or(0);
+                let ri = val().parse().unwrap_or(0);
+                let inp = unescape(&val());
+                o.c18_op = Some((gi, ri, inp));
+            }
             "--list" => {
                 o.lens = "LIST".into();
             }
@@ -149,6 +158,11 @@ pub fn main(entries: Vec<GrammarEntry>) -> ! {
         for e in &entries {
             println!("{} family={} rules={} options={:?}", e.id, e.family, e.rules.len(), e.options);
         }
+        std::process::exit(0);
+    }
+    if let Some((gi, ri, inp)) = &opts.c18_op {
+        // one call in a fresh process image: the baseline for the history exploration of C18
+        println!("{}", lenses::op_digest(&entries[*gi], *ri, inp));
         std::process::exit(0);
     }
     let t0 = Instant::now();
